@@ -236,6 +236,10 @@ impl<'a> TypeAnnotationSpace<'a> for ObjectContext<'a, '_, '_> {
         &self,
         scoped_name: &str,
     ) -> Option<Result<TypeKind<'a>, TypeMapError>> {
+        // not a named type, but an alias of list type: see typemap::util::decorated_type()
+        if scoped_name == "QStringList" {
+            return Some(Ok(TypeKind::List(Box::new(TypeKind::STRING))));
+        }
         self.type_space.get_type_scoped(scoped_name).map(|r| {
             r.map(|ty| match ty {
                 NamedType::Class(cls) if cls.is_derived_from(&self.classes.object) => {
